@@ -212,6 +212,7 @@ func (u *upstream) makeRequestsToHost(addr string, reqs ...*simpleRequest) {
 		return
 	default:
 	}
+	verifpoint.HitArg("redis.upstream.request.after-quit-check", addr)
 
 	c, err := u.getClient(addr)
 	if err != nil {
